@@ -294,7 +294,12 @@ func main() {
 			srv.Mgr.CurrentDB = db // SELECT 1 was an input; go back
 		}
 		for p := 0; p < stripes; p++ {
-			if !memdb.VerifStripeFree(db, p) {
+			free := memdb.VerifStripeFree(db, p)
+			for try := 0; !free && try < 20; try++ { // a ttl timer goroutine may hold the stripe for an instant
+				time.Sleep(5 * time.Millisecond)
+				free = memdb.VerifStripeFree(db, p)
+			}
+			if !free {
 				report("lock-leak", name, argv, fmt.Sprintf("stripe %d still held after the command returned", p), source)
 				return
 			}
